@@ -263,7 +263,11 @@ theorem step_range {cfg : Cfg} {s : St} (h : Good s) (hr : StoreRange s) (op : O
     * `recv inp parse`: **every** `inp`, every parser whose successful results are well formed;
     * `timer k`: the timer is armed;
     * `restorePackets ps`: `RestoreOk`;
-    * every other call (closed, options, acquire / register / release / erase of ANY id,
+    * `release id`: no stored packet carries `id` (since fix ba1a812 `release_packet_id` removes the
+      identifier from the wait sets `puback` / `pubrec` but not its packet from the store: a stored
+      packet would be left without wait-set entry, and a later stored PUBLISH with the re-acquired
+      identifier hits `store.add().unwrap()` — `Props/C05.lean`, `C05_release_stored_then_reuse_panics`);
+    * every other call (closed, options, acquire / register / erase of ANY id,
       restoreHandled): unrestricted.
     (Until fix ab9a1ec — `publish_send_count` a `u16` — `recv` and a CONNACK `send` carried the
     side condition `Headroom`: at most 65535 stored packets.) -/
@@ -272,7 +276,25 @@ def Legal (cfg : Cfg) (s : St) : Op → Prop
   | .recv _ parse => ParserOk parse
   | .timer k => timerFlag s k = true
   | .restorePackets ps => RestoreOk { cfg := cfg, s := s } ps
+  | .release id => storeHas id s.store = false
   | _ => True
+
+/-- `release_packet_id` (fix ba1a812) of an identifier no stored packet carries: the wait sets
+    shrink, every stored packet keeps its entry -/
+theorem releasePacketId_good {c : C} (h : Good c.s) (id : Nat) (hst : storeHas id c.s.store = false) :
+    Good (releasePacketId c id).s := by
+  have h1 := releaseIfUsed_good h id
+  obtain ⟨a, ha, e⟩ := releaseIfUsed_s h.pid id
+  have hs : (releaseIfUsed c id).s.store = c.s.store := by rw [e]
+  refine releasePacketId_ind (Q := fun c' => Good c'.s) c id h1 (fun _ => ?_) (fun h2 => decSendCount_good h2)
+  have hst' : ∀ q, (id, q) ∉ (releaseIfUsed c id).s.store := by rw [hs]; exact storeHas_false.1 hst
+  have hsi : StoreInv (releaseIfUsed c id).s.ver (releaseIfUsed c id).s.store
+      (del id (releaseIfUsed c id).s.puback) (del id (releaseIfUsed c id).s.pubrec) (releaseIfUsed c id).s.pubcomp :=
+    h1.store.shrink (List.Sublist.refl _) (fun i hi => (mem_del.1 hi).1) (fun i hi => (mem_del.1 hi).1)
+      (fun i hi => hi) (fun i q hm => by
+        have hne : i ≠ id := by rintro rfl; exact hst' q hm
+        exact ⟨fun hi => mem_del.2 ⟨hi, hne⟩, fun hi => mem_del.2 ⟨hi, hne⟩, fun hi => hi⟩)
+  exact ⟨⟨h1.1.1, hsi, h1.1.2.2⟩, h1.2⟩
 
 theorem step_good {cfg : Cfg} {s : St} {op : Op} (h : Good s) (hr : StoreRange s) (hl : Legal cfg s op) :
     Good (step cfg s op).s := by
@@ -287,7 +309,7 @@ theorem step_good {cfg : Cfg} {s : St} {op : Op} (h : Good s) (hr : StoreRange s
   | setRespTimeout ms => exact h
   | acquire => exact h.setPid (h.pid.allocate)
   | register id => exact h.setPid (h.pid.useValue id)
-  | release id => exact releaseIfUsed_good (c := { cfg := cfg, s := s }) h id
+  | release id => exact releasePacketId_good (c := { cfg := cfg, s := s }) h id hl
   | erase id => exact eraseStoredPublish_good (c := { cfg := cfg, s := s }) h id
   | restoreHandled ids => exact h
   | restorePackets ps => exact restorePackets_good (c := { cfg := cfg, s := s }) h ps hl
